@@ -184,25 +184,6 @@ def NOut (N : List Nat) : Prop := N.Pairwise (· < ·) ∧ ∀ y ∈ N, y < S.le
 
 end
 
-theorem pushDescA_mem (N : List Nat) (x y : Nat) : y ∈ pushDescA N x ↔ (y ∈ N ∨ y = x) := by
-  unfold pushDescA
-  cases hl : N.getLast? with
-  | none =>
-    have : N = [] := List.getLast?_eq_none_iff.mp hl
-    subst this; simp
-  | some l =>
-    simp only
-    by_cases h : (l == x) = true
-    · simp only [h, if_true]
-      have hlx : l = x := by simpa using h
-      have hmem : x ∈ N := hlx ▸ List.mem_of_getLast? hl
-      constructor
-      · exact Or.inl
-      · rintro (h1 | h1)
-        · exact h1
-        · exact h1 ▸ hmem
-    · simp [h]
-
 theorem pushDescA_sorted (N : List Nat) (x : Nat) (hs : N.Pairwise (· < ·)) (hle : ∀ y ∈ N, y ≤ x) :
     (pushDescA N x).Pairwise (· < ·) := by
   unfold pushDescA
@@ -578,14 +559,14 @@ theorem aVisit (hna : ∀ s ∈ S, s.axis ≠ .attribute) (hnp : ∀ s ∈ S, No
   simp [Phi]
 
 /-- fuel and queue of `aStep` at a non-END, non-marker event -/
-theorem aStep_run (P : List Nat) (A : AState) (e : Event) (he : e.isEnd = false) (hm : e.isNsOrCdata = false) :
-    aStep ns vs S (P :: A) e =
-      let acc := aLoop ns vs S (realLen S) e (2 * S.length + (P.map fun x => ((x, true) : AEntry)).length + 2)
+theorem aStep_run (F : Nat) (P : List Nat) (A : AState) (e : Event) (he : e.isEnd = false) (hm : e.isNsOrCdata = false) :
+    aStep ns vs S F (P :: A) e =
+      let acc := aLoop ns vs S (realLen S) e (2 * F + (P.map fun x => ((x, true) : AEntry)).length + 2)
         (P.map fun x => (x, true)) ⟨[], false⟩
       (if e.isStart then acc.nextPos :: P :: A else P :: A, if acc.matched then .bool true else .none) := by
   simp [aStep, he, hm]
 
-theorem aStep_end (st : AState) (tg : QName) : aStep ns vs S st (.end_ tg) = (st.drop 1, .none) := by
+theorem aStep_end (F : Nat) (st : AState) (tg : QName) : aStep ns vs S F st (.end_ tg) = (st.drop 1, .none) := by
   simp [aStep, Event.isEnd]
 
 end
@@ -593,21 +574,21 @@ end
 mutual
   /-- the abstract matcher over the events of a tree, started with the positions `P` for its
       root: the stack is restored, and the marked nodes are those reached from `P` -/
-  theorem aTree (ns : NsMap) (vs : Vars) (S : List Step) (hrl : realLen S = S.length) (hna : ∀ s ∈ S, s.axis ≠ .attribute)
+  theorem aTree (ns : NsMap) (vs : Vars) (S : List Step) (F : Nat) (hF : S.length ≤ F) (hrl : realLen S = S.length) (hna : ∀ s ∈ S, s.axis ≠ .attribute)
       (hnp : ∀ s ∈ S, NonPositional ns (toXVars vs) s) :
       ∀ (n : Node), n.clean = true → AllNodes (HitOk ns vs S) n → ∀ (loc : List Nat) (P : List Nat) (A : AState),
         NOut S P →
-        (runOne (aStep ns vs S) (P :: A) n.flatten).2 = P :: A ∧
-        ∀ t : LNode, selB (runOne (aStep ns vs S) (P :: A) n.flatten).1 (eventLocs n loc) t.loc
+        (runOne (aStep ns vs S F) (P :: A) n.flatten).2 = P :: A ∧
+        ∀ t : LNode, selB (runOne (aStep ns vs S F) (P :: A) n.flatten).1 (eventLocs n loc) t.loc
           = P.any fun x => RR ns (toXVars vs) S x ⟨loc, n⟩ t
     | .elem tg ats ks, hcl, hall, loc, P, A, hP => by
         have hv := aVisit ns vs S hna hnp ⟨loc, .elem tg ats ks⟩ hall.1 P hP
-          (2 * S.length + (P.map fun x => ((x, true) : AEntry)).length + 2) (by omega)
-        have hrun := aStep_run ns vs S P A (.start tg ats) rfl rfl
+          (2 * F + (P.map fun x => ((x, true) : AEntry)).length + 2) (by omega)
+        have hrun := aStep_run ns vs S F P A (.start tg ats) rfl rfl
         rw [hrl] at hrun
         simp only [Event.isStart, if_true] at hrun
         simp only [nodeEvent] at hv
-        have hk := aTreeList ns vs S hrl hna hnp ks (by simpa [Node.clean] using hcl) hall.2 loc 0 _ (P :: A) hv.1
+        have hk := aTreeList ns vs S F hF hrl hna hnp ks (by simpa [Node.clean] using hcl) hall.2 loc 0 _ (P :: A) hv.1
         simp only [Node.flatten, eventLocs, runOne_cons, runOne_append]
         rw [hrun]
         simp only []
@@ -615,14 +596,14 @@ mutual
         refine ⟨by simp [runOne, aStep_end], fun t => ?_⟩
         rw [selB_cons, selB_append _ _ _ _ (by rw [runOne_length, eventLocsList_length]), hk.2 t, hv.2 t]
         simp [runOne, aStep_end, selB, matched, CHN, childrenOf, Val.truthy]
-        cases (aLoop ns vs S S.length (Event.start tg ats) (2 * S.length + P.length + 2)
+        cases (aLoop ns vs S S.length (Event.start tg ats) (2 * F + P.length + 2)
           (List.map (fun x => (x, true)) P) ⟨[], false⟩).matched <;> simp [Val.truthy]
     | .leaf e, hcl, hall, loc, P, A, hP => by
         simp only [Node.clean, Bool.and_eq_true, Bool.not_eq_true'] at hcl
         obtain ⟨hend, hstart⟩ := isEnd_of_not_startEnd hcl.1
         have hv := aVisit ns vs S hna hnp ⟨loc, .leaf e⟩ hall P hP
-          (2 * S.length + (P.map fun x => ((x, true) : AEntry)).length + 2) (by omega)
-        have hrun := aStep_run ns vs S P A e hend hcl.2
+          (2 * F + (P.map fun x => ((x, true) : AEntry)).length + 2) (by omega)
+        have hrun := aStep_run ns vs S F P A e hend hcl.2
         rw [hrl] at hrun
         simp only [hstart, Bool.false_eq_true, if_false] at hrun
         simp only [nodeEvent] at hv
@@ -630,21 +611,21 @@ mutual
         refine ⟨by simp [runOne], fun t => ?_⟩
         rw [hv.2 t]
         simp [runOne, selB, matched, CHN, childrenOf]
-        cases (aLoop ns vs S S.length e (2 * S.length + P.length + 2)
+        cases (aLoop ns vs S S.length e (2 * F + P.length + 2)
           (List.map (fun x => (x, true)) P) ⟨[], false⟩).matched <;> simp [Val.truthy]
-  theorem aTreeList (ns : NsMap) (vs : Vars) (S : List Step) (hrl : realLen S = S.length) (hna : ∀ s ∈ S, s.axis ≠ .attribute)
+  theorem aTreeList (ns : NsMap) (vs : Vars) (S : List Step) (F : Nat) (hF : S.length ≤ F) (hrl : realLen S = S.length) (hna : ∀ s ∈ S, s.axis ≠ .attribute)
       (hnp : ∀ s ∈ S, NonPositional ns (toXVars vs) s) :
       ∀ (ks : List Node), cleanList ks = true → AllList (HitOk ns vs S) ks → ∀ (loc : List Nat) (i : Nat)
         (N : List Nat) (A : AState), NOut S N →
-        (runOne (aStep ns vs S) (N :: A) (flattenList ks)).2 = N :: A ∧
-        ∀ t : LNode, selB (runOne (aStep ns vs S) (N :: A) (flattenList ks)).1 (eventLocsList ks loc i) t.loc
+        (runOne (aStep ns vs S F) (N :: A) (flattenList ks)).2 = N :: A ∧
+        ∀ t : LNode, selB (runOne (aStep ns vs S F) (N :: A) (flattenList ks)).1 (eventLocsList ks loc i) t.loc
           = ((ks.zipIdx i).map fun (k, j) => (⟨loc ++ [j], k⟩ : LNode)).any
               fun k => N.any fun y => RR ns (toXVars vs) S y k t
     | [], _, _, loc, i, N, A, _ => by simp [Genshi.flattenList, eventLocsList, runOne, selB, matched]
     | k :: ks, hcl, hall, loc, i, N, A, hN => by
         simp only [cleanList, Bool.and_eq_true] at hcl
-        have h1 := aTree ns vs S hrl hna hnp k hcl.1 hall.1 (loc ++ [i]) N A hN
-        have h2 := aTreeList ns vs S hrl hna hnp ks hcl.2 hall.2 loc (i + 1) N A hN
+        have h1 := aTree ns vs S F hF hrl hna hnp k hcl.1 hall.1 (loc ++ [i]) N A hN
+        have h2 := aTreeList ns vs S F hF hrl hna hnp ks hcl.2 hall.2 loc (i + 1) N A hN
         simp only [Genshi.flattenList, eventLocsList, runOne_append]
         rw [h1.1]
         refine ⟨h2.1, fun t => ?_⟩
@@ -699,13 +680,19 @@ theorem generic_nonpos_marks (S : List Step) (h : StepsOk ns vs S) (root : Node)
     (hnodes : AllNodes (NodeFor S ns vs) root) (t : LNode) :
     selB (runOne (gStep S ns vs) gInit root.flatten).1 (eventLocs root []) t.loc
       = RR ns (toXVars vs) S 0 ⟨[], root⟩ t := by
-  have hnpm : NoPositional ns vs S := by
+  have hrl := h.realLen ns vs
+  have htake : S.take (realLen S) = S := by rw [hrl]; exact List.take_length
+  have hnpm : NoPositional ns vs (S.take (realLen S)) := by
+    rw [htake]
     intro s hs q hq e
     rw [isNum_eval, h.nonpos s hs q hq]
-  rw [generic_eq_abstract ns vs S hnpm (h.lastResult ns vs)]
+  rw [generic_eq_abstract ns vs S (by rw [htake]) hnpm (by rw [hrl]; exact h.ne)]
+  have hlast : (fun e v => gate (lastResult S e ns) v) = fun (_ : Event) v => gate (.bool true) v := by
+    funext e v; rw [h.lastResult ns vs e]
+  rw [hlast, htake, zipWith_gate_true]
   have hnpr : ∀ s ∈ S, NonPositional ns (toXVars vs) s :=
     fun s hs => nonpositional_of_numTyped ns vs s (h.typed s hs) (h.nonpos s hs)
-  have htree := aTree ns vs S (h.realLen ns vs) h.na hnpr root hcl
+  have htree := aTree ns vs S S.length (Nat.le_refl _) hrl h.na hnpr root hcl
     (AllNodes.imp (fun n hn => h.hitOk ns vs n hn) root hnodes) [] [0] []
     ⟨by simp, by intro y hy; simp at hy; subst hy; exact h.ne⟩
   rw [htree.2 t]
